@@ -22,6 +22,7 @@ const (
 	c15RD = 'd' // release again the id this thread released last (duplicate release)
 	c15RW = 'w' // release the id of the last parked waiter (an id that belongs to another operation and is not the head)
 	c15RN = 'n' // release an id that was never issued
+	c15RP = 'p' // release the id this thread holds while a helper thread releases the same id at the same time (an explicit and a deferred release of one operation racing each other)
 )
 
 type c15thread struct {
@@ -99,12 +100,12 @@ func (m *c15mon) popped(id int64) {
 		return
 	}
 	st := &m.th[t]
-	if st.op == c15RO && st.relID == id {
+	if (st.op == c15RO || st.op == c15RP) && st.relID == id {
 		return
 	}
 	for h, hid := range m.holders {
 		if hid == id {
-			kind := map[byte]string{c15RD: "duplicate", c15RW: "waiter-id", c15RN: "never-issued", c15RO: "own"}[st.op]
+			kind := map[byte]string{c15RD: "duplicate", c15RW: "waiter-id", c15RN: "never-issued", c15RO: "own", c15RP: "racing-duplicate"}[st.op]
 			m.fail("non-own-release-evicts-holder:"+kind, fmt.Sprintf("thread %d holds id %d; thread %d's %s release of id %d removed it from the head of the queue", h, hid, t, kind, st.relID))
 		}
 	}
@@ -169,6 +170,18 @@ func c15run(t int, prog string) {
 					g.ReleaseTreasureGuard(guard.ID(id))
 					m.observe()
 				}
+			case c15RP:
+				if st.held != 0 {
+					id := st.held
+					delete(m.holders, t)
+					st.held, st.lastRe, st.relID = 0, id, id
+					m.dupDone = true
+					h := vrt.Go(fmt.Sprintf("T%d:dup-release", t), func() { g.ReleaseTreasureGuard(guard.ID(id)) })
+					h.Local = t
+					g.ReleaseTreasureGuard(guard.ID(id))
+					vrt.Join(h)
+					m.holderIntact("racing-duplicate")
+				}
 			case c15RD:
 				if st.lastRe != 0 && st.held == 0 {
 					m.dupDone = true
@@ -205,12 +218,12 @@ func TestC15(t *testing.T) {
 	quietLogs()
 	r := kit.Start("C15", "model_checking")
 	defer r.Finish()
-	progs := []string{"Wr", "Nr", "Wrd", "Nrd", "Wnr", "n", "Wwr", "WrWr", "WrNr"}
+	progs := []string{"Wr", "Nr", "Wrd", "Nrd", "Wnr", "n", "Wwr", "WrWr", "WrNr", "Wp"}
 	bound := 2
 	if !r.Quick() {
 		bound = -1 // unbounded: every interleaving, made finite by state-key pruning
 	}
-	r.Rule = fmt.Sprintf("real guard.New() under the controlled scheduler; thread programs %v (W=Start(wait) N=Start(no-wait) r=Release(own) d=Release(own) again n=Release(never-issued id) w=Release(id of the last parked waiter)); every multiset of 2 and of 3 programs; every schedule with at most %s preemptions (scheduling points before every Lock/Unlock/Cond.Wait/Signal/Broadcast/atomic op), pruned on the full state key (queue, counter, thread positions and ids, holders, pending arrivals). Monitors: at most one thread between a successful Start and its own first Release; acquisitions are a prefix of arrivals (arrival = the id appearing in the queue, observed at every scheduling decision); a duplicate / never-issued / waiter-id release leaves the holder at the head. Non-trivial = executions in which some thread had to wait or was refused", progs, map[bool]string{true: "any number of", false: fmt.Sprint(bound)}[bound < 0])
+	r.Rule = fmt.Sprintf("real guard.New() under the controlled scheduler; thread programs %v (W=Start(wait) N=Start(no-wait) r=Release(own) d=Release(own) again n=Release(never-issued id) w=Release(id of the last parked waiter) p=Release(own) racing with a second release of the same id by a helper thread); every multiset of 2 and of 3 programs; every schedule with at most %s preemptions (scheduling points before every Lock/Unlock/Cond.Wait/Signal/Broadcast/atomic op), pruned on the full state key (queue, counter, thread positions and ids, holders, pending arrivals). Monitors: at most one thread between a successful Start and its own first Release; acquisitions are a prefix of arrivals (arrival = the id appearing in the queue, observed at every scheduling decision); a duplicate / never-issued / waiter-id release leaves the holder at the head; no thread stays blocked when all others have finished. Non-trivial = executions in which some thread had to wait or was refused", progs, map[bool]string{true: "any number of", false: fmt.Sprint(bound)}[bound < 0])
 	r.Assumptions = []string{"sequentially consistent memory: scheduling points only at synchronisation operations (unsynchronised accesses are C10's subject)", "releasing the id that is currently the head counts as the holder's release: the guard identifies holders by id only", "deadlocks are counted, not raised: the property does not state termination"}
 	var cfgs [][]string
 	for i := range progs {
@@ -258,7 +271,9 @@ func TestC15(t *testing.T) {
 				}
 				r.Outcome(fmt.Sprintf("acq=%d dl=%v viol=%d", len(m.acqs), x.Deadlock, len(m.viol)))
 				if x.Deadlock {
+					// every program releases what it acquires, so a thread that stays blocked is a waiter that is never served
 					r.Count("deadlocked_schedules", 1)
+					m.fail("waiter-never-acquires", fmt.Sprintf("the execution ends with blocked threads %v; arrivals %v, acquisitions %v", x.Blocked, m.arrivals, m.acqs))
 				} else if !x.Horizon && !eqI64(m.acqs, m.arrivals) {
 					m.fail("arrival-never-acquired", fmt.Sprintf("all threads finished but arrivals %v != acquisitions %v", m.arrivals, m.acqs))
 				}
